@@ -34,12 +34,18 @@ package http1
 //@ ghost var closeSet bool
 //@ ghost var notRunningSeen bool
 //@ ghost var runningChecked bool
+// headChecked: the HEAD test that suppresses the body ran after the handler returned (a handler may reset the
+// response, which clears SkipBody).
+//@ ghost var headChecked bool
 // wantClose: the request or the response asked for the connection to be closed (ConnectionClose() answered true).
 //@ ghost var wantClose bool
 
 //@ func Server.Serve(s, c, conn) err
 //@   props C19, C18, C01, C03, C04
-//@   requires phase == 0 && !rejecting && !closeSet && !notRunningSeen && !runningChecked && !wantClose
+//@   requires phase == 0 && !rejecting && !closeSet && !notRunningSeen && !runningChecked && !wantClose && !headChecked
+//@   ghostset after IsHead!: headChecked = (phase == 2)
+//@   assert @C04 before writeResponse: rejecting || headChecked
+//@   ghostset after ResetWithoutConn: headChecked = false
 //@   ghostset after ConnectionClose!: wantClose = wantClose || result
 //@   assert @C04 before writeResponse: wantClose ==> closeSet
 //@   assert @C04 before ResetWithoutConn: !closeSet
@@ -78,7 +84,7 @@ package http1
 //@   top-ensures traceOpen == 0
 //@   loop 0:
 //@     invariant traceOpen == 0 && evDepth == 0 && !traceStarted
-//@     invariant phase == 0 && !rejecting && !closeSet && !wantClose
+//@     invariant phase == 0 && !rejecting && !closeSet && !wantClose && !headChecked
 //@     invariant @C18 !notRunningSeen && !runningChecked
 
 //@ func Server.Serve$1()
